@@ -937,11 +937,10 @@ def CustomObservable(type='x-custom-observable', properties=None, id_contrib_pro
                 raise DuplicateRegistrationError(
                     "Extension", extension_name,
                 )
-            cls.with_extension = extension_name
 
         # The observable first: if it is refused, the extension must not
         # stay behind in the registry.
-        new_type = _custom_observable_builder(cls, type, _properties, '2.1', _Observable, id_contrib_props)
+        new_type = _custom_observable_builder(cls, type, _properties, '2.1', _Observable, id_contrib_props, extension_name)
 
         if extension_name:
             @CustomExtension(type=extension_name, properties={})
